@@ -11,9 +11,9 @@ from gen import serial as G
 ID = "C15"
 PROPS = ["IsoVerif/Props/C15.lean", "IsoVerif/Props/C15Objects.lean", "IsoVerif/Props/C15Stream.lean",
          "IsoVerif/Props/C15Domain.lean", "IsoVerif/Props/C15Reuse.lean", "IsoVerif/Props/C15Printers.lean",
-         "IsoVerif/Props/C15Penalty.lean"]
+         "IsoVerif/Props/C15Penalty.lean", "IsoVerif/Props/C15Setup.lean"]
 TARGETS = ["IsoVerif.Props.C15", "IsoVerif.Props.C15Objects", "IsoVerif.Props.C15Stream", "IsoVerif.Props.C15Domain",
-           "IsoVerif.Props.C15Reuse", "IsoVerif.Props.C15Printers", "IsoVerif.Props.C15Penalty"]
+           "IsoVerif.Props.C15Reuse", "IsoVerif.Props.C15Printers", "IsoVerif.Props.C15Penalty", "IsoVerif.Props.C15Setup"]
 # the reuse clause composes the models of C08 / C02 / C12 (Model/Reuse.lean), hence their generated tables
 GEN_DEPS = ["Constants", "Enums", "EventClasses", "Strategies", "Prims", "Resolver", "CounterTables", "Weights",
             "PrinterTables"]
@@ -33,7 +33,11 @@ RULE = ("byte-level: the real writers (serialization.py primitives, MatchEvent/I
         "run and of the restart must equal the model's (processSaved on the real files); read_assignments.tsv and "
         "corrected_reads.bed of both runs must equal, line by line, what the model prints from the real saved files "
         "(processSavedP); unit level: the real composite printer on generated records / gene infos, every event name, "
-        "the reference window, merge_files. A case is non-trivial when the model returns a "
+        "the reference window, merge_files. Run set-up (props/C15setup.py, Props/C15Setup.lean): experiments of 1-3 files x "
+        "--read_group none / file_name / tag / read_id, the restart given exactly the saving run's options; args.read_group and "
+        "args.use_technical_replicas at the entry of the real process_assigned_reads of both runs, and whether grouped tables "
+        "were written, must equal the model's Setup; the real load_run_setup on exact / extended / damaged _info files. "
+        "A case is non-trivial when the model returns a "
         "non-error value and model == implementation; distinct by (op, input)")
 TRUSTED = ["harness/props/C15.py adapters between the canonical JSON form and the real objects "
            "(ReadAssignment/IsoformMatch/... built with __new__ + attributes, exactly the attributes serialize reads)",
@@ -49,6 +53,9 @@ TRUSTED = ["harness/props/C15.py adapters between the canonical JSON form and th
            "reference window before the REAL extend_reference_region (the real loader runs in every in-process run); the "
            "`common_header` lines and `all_isoforms_introns` (real GeneInfo.deserialize on the real database) are handed to "
            "the model as parameters",
+           "props/C15setup.py SetupProbe: a wrapper around DatasetProcessor.process_assigned_reads that records two attributes of "
+           "args and calls the real method; the groups handed out by the stubbed collector follow the grouper of the saving "
+           "run's mode (file labels f0.., tag values)",
            "Lean `String.fromUTF8?` accepts exactly the byte strings CPython's strict utf-8 decoder accepts "
            "(cross-checked on corrupted streams each run)"]
 ASSUMPTIONS = ["CPython int = Lean Int; Python str without lone surrogates = Lean String (list of Unicode scalar values)",
@@ -337,6 +344,7 @@ def writers():
         "enc_multimap": lambda x: (lambda o: impl_write_multimap(x, o)),
         "enc_info": lambda x: (lambda o: impl_write_info(x, o)),
         "enc_info_file": lambda x: (lambda o: impl_write_info_file(x, o)),
+        "enc_info_file_setup": lambda x: (lambda o: impl_write_info_file_setup(x, o)),
     }
 
 
@@ -364,6 +372,7 @@ def readers():
         "load_multimap": (impl_load_multimap, lambda ls: [[j_basic(b) for b in l] for l in ls]),
         "dec_info": (impl_read_info, lambda x: x),
         "dec_unaligned": (impl_read_unaligned, int),
+        "dec_setup": (impl_read_setup, lambda x: x),
     }
 
 
@@ -373,7 +382,9 @@ READER_OF = {"write_int_neg": ["read_int_neg"], "write_string": ["read_string", 
              "write_list_of_pairs": ["read_list_of_pairs"], "write_dict": ["read_dict"], "write_penalty": ["read_penalty"],
              "enc_event": ["dec_event"], "enc_match": ["dec_match"], "enc_ra": ["dec_ra", "quick_ra"],
              "enc_basic": ["dec_basic"], "enc_header": ["dec_header"], "enc_multimap": ["load_multimap"],
-             "enc_info": ["dec_info", "dec_unaligned"], "enc_info_file": ["dec_info", "dec_unaligned"]}
+             "enc_info": ["dec_info", "dec_unaligned", "dec_setup"],
+             "enc_info_file": ["dec_info", "dec_unaligned", "dec_setup"],
+             "enc_info_file_setup": ["dec_info", "dec_unaligned", "dec_setup"]}
 # readers that must not be run on damaged input (the real loop does not terminate on a truncated file)
 NO_DAMAGE = {"load_multimap"}
 
@@ -445,6 +456,26 @@ def impl_read_info(inf):
     compared after sorting and de-duplication too (see `norm_info`)"""
     t, p, g = _real_info_method("load_read_info", inf)
     return {"total": t, "polya": p, "groups": sorted(G.cps(s) for s in g)}
+
+
+def impl_write_info_file_setup(x, outf):
+    """the `_info` file since the run set-up is stored: + len(sample.file_list), args.read_group (write_string_or_none)
+    (the byte-for-byte comparison with the file the REAL collect_reads writes is props/C15reuse.py)"""
+    impl_write_info_file(x, outf)
+    m = _impl()
+    m.S.write_int(x["setup"]["files"], outf)
+    m.S.write_string_or_none(opt_s(x["setup"]["read_group"]), outf)
+
+
+def impl_read_setup(inf):
+    """the REAL DatasetProcessor.load_run_setup"""
+    if not hasattr(_impl().DP.DatasetProcessor, "load_run_setup"):
+        # a tree without the method: walk over the older fields with the real reader first, so that a corrupted list
+        # count runs into the read budget as it would in the method (the model is not asked then), then report the error
+        impl_read_unaligned(inf)
+        raise AttributeError("DatasetProcessor.load_run_setup")
+    n, g = _real_info_method("load_run_setup", inf)
+    return {"files": n, "read_group": j_opt_s(g)}
 
 
 def impl_read_unaligned(inf):
@@ -659,6 +690,14 @@ def object_inputs(ctx, E):
         inp.append(("enc_info_file", {"total": G.rand_u32(rng, False), "polya": G.rand_u32(rng, True),
                                       "groups": [G.cps(G.rand_str(rng, 8)) for _ in range(rng.randint(0, 4))],
                                       "unaligned": G.rand_u32(rng, True)}))
+        rg = rng.choice([None, "", "file_name", "tag:CB", "read_id:_", "file:/d\u00e9p\u00f4t/groups.tsv:0:1", G.rand_str(rng, 12)])
+        inp.append(("enc_info_file_setup", {"total": G.rand_u32(rng, False), "polya": G.rand_u32(rng, True),
+                                            "groups": [G.cps(G.rand_str(rng, 8)) for _ in range(rng.randint(0, 4))],
+                                            "unaligned": G.rand_u32(rng, True),
+                                            "setup": {"files": rng.choice([0, 1, 2, 3, 40, G.rand_u32(rng, True)]),
+                                                      "read_group": None if rg is None else G.cps(rg)}}))
+    inp.append(("enc_info_file_setup", {"total": 1, "polya": 0, "groups": [], "unaligned": 0,
+                                        "setup": {"files": 2, "read_group": G.cps("f" * 65535)}}))
     return inp
 
 
@@ -1341,6 +1380,10 @@ def oracle(ctx, disagreements, broken):
             ctx.fail("monitor_selftest", {"kind": "monitor_selftest"}, st)
     finally:
         pipeline_cleanup()
+    # reuse, the run set-up: several files per experiment, --read_group file_name / file:TABLE / none, several prefixes;
+    # the restart is given the options of the saving run and must reproduce every output file (model construction on)
+    from props import C15setup
+    C15setup.oracle(ctx)
     # reuse on generated saved files, real command line in-process (saving run in both memory modes, two restarts)
     from props import C15reuse
     try:
@@ -1415,6 +1458,9 @@ def replay(ctx, failure):
         return multimap_case(inp["x"]) is not None
     if kind == "monitor_selftest":
         return savedumps_selftest() is not None
+    if kind == "reuse_setup":
+        from props import C15setup
+        return C15setup.replay(ctx, failure)["reproduced"]
     if kind == "dump_hyp":
         c2 = vlib.Ctx(ID, inp.get("tier", "quick"), inp.get("seed", ctx.seed))
         try:
